@@ -29,18 +29,21 @@ ASSUMPTIONS = ['faults are injected at instrumented sub-step boundaries (DocActi
                'copy_from_column/clear, rebuild_usercode, undo append, ActionSummary calls, end of a user action), '
                'not at arbitrary bytecodes',
                'the re-append of the popped ModifyColumn undo in doModifyColumn\'s `finally` is not a fault position',
-               'C04_rollback_partial: crash point between doc actions or anywhere inside [Bulk]AddRecord (covered_point), '
-               'no pending calc delta, no ReplaceTableData in the bundle; the remaining crash points are refuted by the '
-               'C04_refuted_* witnesses (known findings); C04_repaired_update_rolled_back covers every crash point '
-               'inside the repaired (undo-first) BulkUpdateRecord of notes/proposed_fixes',
+               'C04_rollback_partial: crash point between doc actions or anywhere inside [Bulk]AddRecord / '
+               '[Bulk]UpdateRecord (covered_point), no pending calc delta, no ReplaceTableData in the bundle; '
+               'C04_pending_calc_rolled_back: pending deltas of ONE recomputed column in bundles of record updates and '
+               'recalculations, at event boundaries; pending deltas combined with row/schema actions or several '
+               'recomputed columns are covered by the rollback-prediction tie and the enumeration only; the remaining '
+               'crash points are refuted by the C04_refuted_* witnesses (known findings)',
                'failures after the last user action (recalculation, auto-removals, final flush) and the sorted-lookup '
                'cache are outside the model: found by the implementation oracle only']
 TECHNIQUE = ('Coq proof over a hand-written micro-step model of doc actions and rollback + event-trace tie against the '
              'instrumented engine + exhaustive fault enumeration on the implementation')
 LEVEL_TEXT = ('Kernel-checked theorems about a micro-step model of the 14 doc actions, apply_doc_action\'s schema '
-              'restore and _undo_to_checkpoint: rollback restores document and schema for every crash point between '
-              'doc actions and inside undo-first actions when no calc delta is pending (all documents, all event '
-              'sequences); vm_compute counterexamples for the crash points where the unchanged code does leave a '
+              'restore, the flush of pending calc deltas and _undo_to_checkpoint: flush + rollback restores document '
+              'and schema for every crash point between doc actions and inside undo-first actions when no calc delta '
+              'is pending (all documents, all event sequences), and with pending deltas of one recomputed column in '
+              'update/recalculation bundles; vm_compute counterexamples for the crash points where the unchanged code does leave a '
               'trace, each replayed on the real engine; the model is tied to the engine on every run and every '
               'crash point of generated bundles is enumerated on the implementation.')
 LEVEL_NOTE = ('kernel strength: useractions.py and formula evaluation are an environment (arbitrary event sequences). '
@@ -272,6 +275,14 @@ def classify(loc, run):
         return 'schema-restore-conflicts-with-appended-undo'
   if 'ReplaceTableData' in loc['done_docs'] or doc == 'ReplaceTableData':
     return 'ReplaceTableData-undo-clears-formula-columns'
+  if injected and doc is None and loc['point'] in ('set', 'sum:add_changes', 'undo.pop', 'undo.append', 'undo.insert') \
+     and cells and all(c is None or (t, c) in (run.pending | set(loc['calc_cells'])) or is_formula_col(run, t, c)
+                       for (t, c) in cells):
+    # the failure strikes inside the recording machinery itself, outside any doc action: between the cell write of a
+    # recalculation / type conversion (engine._recompute_step, useractions.doModifyColumn) and summary.add_changes,
+    # or inside flush_calc_changes_for_column after the deltas were popped: the write is in no undo action and in
+    # no summary delta, so neither the flush nor the revert sees it
+    return 'crash-between-calc-write-and-its-record'
   pend = run.pending | set(loc['calc_cells'])
   def is_formula(t, c):
     return bool((run.before_schema.get(t, {}).get(c) or ('', False))[1])
@@ -293,6 +304,10 @@ def classify(loc, run):
     # replaces the column object once more and the next Calculate re-reads the stale order
     return 'sorted-lookup-keeps-destroyed-column-object'
   return 'unclassified-trace-after-failure'
+
+
+def is_formula_col(run, t, c):
+  return bool((run.before_schema.get(t, {}).get(c) or ('', False))[1])
 
 
 def calc_tables(loc, run):
@@ -449,11 +464,33 @@ ROLLBACK_TIE_CHECK = (
   'fun c : doc * (Z -> list Z) * list event * nat * nat * bool * bool * bool => '
   'let \'(d, ord, es, i, j, at_start, restored, rollback_ok) := c in '
   'let st0 := init_state d [] in '
-  'match run_until_crash ord st0 es (crash_index ord st0 es i j at_start) with '
-  '| Crashed st _ _ => match rollback ord 0 st with '
+  'let k := crash_index ord st0 es i j at_start in '
+  'match run_until_crash ord st0 es k with '
+  '| Crashed st _ _ => match rollback_flush ord st (sum_log (run_log ord st0 es k)) with '
   '    | Some d2 => rollback_ok && Bool.eqb (bool_decide (d2 = d)) restored '
   '    | None => negb rollback_ok end '
   '| Finished _ => false end')
+
+
+def regression_corpus(ctx, prop_id, replay_kind_fn):
+  """Witnesses of findings that were repaired in /repo (kind 'fixed' in known_findings.json) are replayed first on
+  every run: if one fails again it is reported under its old kind, which no entry suppresses any more."""
+  n = 0
+  for k in core.load_known():
+    if k['property'] != prop_id or k.get('kind') != 'fixed' or 'witness' not in k:
+      continue
+    n += 1
+    try:
+      r = replay_kind_fn(k['witness'])
+    except core.TieBroken:
+      raise
+    except Exception as ex:
+      r = ('regression-witness-raises', repr(ex)[:300])
+    ctx.count(('regression', k['id']), nontrivial=True, kind='regression-witness')
+    if r is not None:
+      ctx.violation(r[0], 'REGRESSION of %s (fixed by %s): %s' % (k['id'], k.get('commit'), r[1]), k['witness'])
+  ctx.extra['regression_witnesses_replayed'] = n
+
 
 
 # ---------------------------------------------------------------------------------------------------------------
@@ -657,6 +694,7 @@ def correspond(ctx):
 
 def search(ctx):
   stats = collections.Counter()
+  regression_corpus(ctx, ID, replay_kind)
   ctx._c04_tie_budget = ctx.n(24, 500)
   ctx._c04_tie_cases = []
   runs = getattr(ctx, '_c04_runs', None)
